@@ -545,17 +545,24 @@ type famOpt struct {
 	name     string
 	backbone int
 	from     int
-	nkeys    int // sealers k0..k(nkeys-1); the last one is the outsider
+	nkeys    int    // sealers k0..k(nkeys-1); the last one is the outsider
+	votes    []spec // clique: vote alternatives per header (vote = -1: plain header); nil = plain only
 }
 
 // tipEvents: every sealer with both difficulties on top of the newest stored header.
-func (m *model) tipEvents(s state, nkeys int) []string {
+func (m *model) tipEvents(s state, opt *famOpt) []string {
 	p := s.nodes[len(s.nodes)-1]
 	lc := m.listsAt(p, p.height+1)[0]
+	votes := []spec{{vote: -1}}
+	if opt.votes != nil && (p.height+1)%m.epoch != 0 {
+		votes = opt.votes
+	}
 	var evs []string
-	for k := 0; k < nkeys; k++ {
+	for k := 0; k < opt.nkeys; k++ {
 		for _, d := range []int64{2, 1} {
-			evs = append(evs, p.label+"|"+encodeSpec(spec{signer: k, diff: d, vote: -1}, lc))
+			for _, v := range votes {
+				evs = append(evs, p.label+"|"+encodeSpec(spec{signer: k, diff: d, vote: v.vote, auth: v.auth}, lc))
+			}
 		}
 	}
 	return evs
@@ -600,7 +607,7 @@ func explore(r *ev.Run, env *hsenv.Env, m *model, sims chan *hsenv.Sim, base pol
 		Workers:  workers,
 		Events: func(s state, d int) []string {
 			if opt != nil {
-				return m.tipEvents(s, opt.nkeys)
+				return m.tipEvents(s, opt)
 			}
 			return m.events(s)
 		},
@@ -770,7 +777,9 @@ func explore(r *ev.Run, env *hsenv.Env, m *model, sims chan *hsenv.Sim, base pol
 	if opt != nil {
 		// honest in-turn backbone; every prefix from opt.from on is a start state
 		cur := init
-		cfg.Init = nil
+		if opt.backbone > 0 {
+			cfg.Init = nil
+		}
 		for i := 0; i < opt.backbone; i++ {
 			tip := cur.nodes[len(cur.nodes)-1]
 			hs := m.honest(tip, -1)
